@@ -186,6 +186,7 @@ struct ObjShape {
     entries: Vec<String>,  // maps: sorted (key classes, register); sequences: registers in order
     text: Option<String>,  // UTF-8 lengths of the characters of text_at
     text_width: Option<usize>, // width of text_at in the document's encoding
+    starts: Vec<usize>,    // text: start index of every addressable element (widths of the elements)
     marks: Vec<String>,    // per mark name (classes): merged coverage intervals, sorted
     marks_strict: Vec<String>, // marks_at as returned: (start, end, name classes, value shape), sorted
 }
@@ -231,7 +232,7 @@ fn state_shape(doc: &Automerge, cands: &[(ObjId, ObjType)], heads: &[ChangeHash]
             Err(e) => return Err(format!("object_type({}) failed: {}", id, e)),
         };
         let measure = doc.length_at(id, heads);
-        let mut sh = ObjShape { ty: format!("{:?}", ty), measure, entries: vec![], text: None, text_width: None, marks: vec![], marks_strict: vec![] };
+        let mut sh = ObjShape { ty: format!("{:?}", ty), measure, entries: vec![], text: None, text_width: None, starts: vec![], marks: vec![], marks_strict: vec![] };
         match ty {
             ObjType::Map | ObjType::Table => {
                 let keys: Vec<String> = doc.keys_at(id, heads).collect();
@@ -256,6 +257,7 @@ fn state_shape(doc: &Automerge, cands: &[(ObjId, ObjType)], heads: &[ChangeHash]
                         continue;
                     }
                     prev = Some(s);
+                    sh.starts.push(s);
                     let vals = doc.get_all_at(id, s, heads).map_err(|e| format!("get_all_at({},{}): {}", id, s, e))?;
                     // (the start index is not part of the entry: widths are compared through length_at / text_at)
                     sh.entries.push(register_shape(vals, &index));
@@ -285,7 +287,8 @@ fn state_shape(doc: &Automerge, cands: &[(ObjId, ObjType)], heads: &[ChangeHash]
 fn diff_category(a: &ObjShape, b: &ObjShape) -> Option<&'static str> {
     if a.ty != b.ty {
         Some("object-type")
-    } else if a.ty == "Text" && (a.measure != b.measure || a.text_width != b.text_width) {
+    } else if a.ty == "Text" && (a.measure != b.measure || a.text_width != b.text_width || a.starts != b.starts) {
+        // (start positions: the width of every single element, not just the total)
         Some("text-width")
     } else if a.ty == "List" && a.measure != b.measure {
         Some("list-length")
